@@ -30,9 +30,20 @@ type orL1 struct {
 	fin     uint64
 	finErr  bool
 	sampled bool
+	head      uint64 // the chain's head: what a query without the finality tag answers
+	headAsked bool
 }
 
 func (c *orL1) HeaderByNumber(ctx context.Context, number *big.Int) (*types.Header, error) {
+	if number == nil || number.Sign() >= 0 {
+		// the chain's head (or a block by number): always answered — far beyond the finalized block, nothing there is final
+		n := c.head
+		if number != nil {
+			n = number.Uint64()
+		}
+		c.headAsked = true
+		return &types.Header{Number: new(big.Int).SetUint64(n)}, nil
+	}
 	c.sampled = true
 	if c.finErr {
 		return nil, errors.New("l1 rpc failure")
@@ -187,6 +198,7 @@ func (w *orWorld) exec(r *Run, line string) string {
 		obs = "ok"
 	case "tick":
 		w.l1.fin, w.l1.finErr, w.l1.sampled = bigOf(ws[1]).Uint64(), ws[2] == "1", false
+		w.l1.head, w.l1.headAsked = max(w.lpb, w.l1.fin), false // the head is where the syncer is (nothing above the finalized block is final)
 		w.sy.syncErr, w.snd.isInjErr, w.snd.injErr = ws[3] == "1", ws[4] == "1", ws[5] == "1"
 		w.snd.l2 = map[common.Hash]bool{}
 		l2ids := map[uint64]bool{}
